@@ -55,7 +55,10 @@ static int uprobe_upump_mgr_throw(struct uprobe *uprobe, struct upipe *upipe,
 
         case UPROBE_FREEZE_UPUMP_MGR:
         case UPROBE_THAW_UPUMP_MGR:
-            uprobe_upump_mgr->frozen = event == UPROBE_FREEZE_UPUMP_MGR;
+            if (event == UPROBE_FREEZE_UPUMP_MGR)
+                uprobe_upump_mgr->frozen++;
+            else
+                uprobe_upump_mgr->frozen--;
             return UBASE_ERR_NONE;
 
         case UPROBE_NEED_UPUMP_MGR:
@@ -84,7 +87,7 @@ struct uprobe *uprobe_upump_mgr_init(struct uprobe_upump_mgr *uprobe_upump_mgr,
     assert(uprobe_upump_mgr != NULL);
     struct uprobe *uprobe = uprobe_upump_mgr_to_uprobe(uprobe_upump_mgr);
     uprobe_upump_mgr->upump_mgr = upump_mgr_use(upump_mgr);
-    uprobe_upump_mgr->frozen = false;
+    uprobe_upump_mgr->frozen = 0;
     uprobe_init(uprobe, uprobe_upump_mgr_throw, next);
     return uprobe;
 }
